@@ -1,6 +1,7 @@
 """Correspondence suites and searchers shared by several properties."""
 import os, json, time
 from concurrent.futures import ProcessPoolExecutor
+import re
 import hidlib, dump_ast, gen, shrink
 
 WORD_SIZES = (2, 3, 4, 8)
@@ -93,8 +94,22 @@ def describe(r):
     return dict(outcome=r.outcome, output=r.output[:400].hex(), flags=r.flags, steps=r.steps)
 
 
+_LEN_FROM_ARG = re.compile(r'@is_you\(([^)]*)\)')
+
+
+def _unbounded_demand(src):
+    """does the program size a stack array (or recurse) by a number it takes from the command line?"""
+    m = _LEN_FROM_ARG.search(src)
+    if not m: return False
+    names = [p.strip().split(' ')[-1] for p in m.group(1).split(',') if p.strip().startswith('int ')]
+    for n in names:
+        if re.search(r'\w\s+\w+\[[^\]]*\b%s\b[^\]]*\];' % re.escape(n), src): return True       # T x[... n ...];
+        if re.search(r'\b(rec|deep|f\d*|fn\d*)\([^;]*\b%s\b' % re.escape(n), src): return True     # recursion depth from the argument
+    return False
+
+
 def differential(ctx, jobs, srcs, kinds_bad=('DIFF', 'HALT', 'FAULT', 'ASMERROR', 'FELLOFF'), allow_stack=True,
-                 do_shrink=True, max_report=3, label='diff', must_compile=False):
+                 do_shrink=True, max_report=3, label='diff', must_compile=False, ife=True):
     """run VM and reference machine on the jobs; record violations (shrunk) in ctx"""
     cases, rejected = compile_cases(jobs)
     res = hidlib.run_parallel(cases, chunk=64)
@@ -125,6 +140,27 @@ def differential(ctx, jobs, srcs, kinds_bad=('DIFF', 'HALT', 'FAULT', 'ASMERROR'
                 if not tally[k]: del tally[k]
                 tally['inconclusive:stack'] = tally.get('inconclusive:stack', 0) + 1
         bad = [(cid, k) for cid, k in bad if cid not in drop]
+    # "the VM ran out of stack, the reference knows no stack" decides nothing - unless the overflow is spurious: the same checked
+    # build with a far larger stack must at least get further.  (Programs that allocate by a length taken from the command line
+    # are exempt: one huge allocation fails at the same step whatever the stack.)
+    if allow_stack and tally.get('inconclusive:stack'):
+        sus = [c for c in cases if c['id'] in res and 'vm' in res[c['id']] and 'src' in res[c['id']] and not jm0[c['id']][5]
+               and classify(res[c['id']]['vm'], res[c['id']]['src'], True) == 'inconclusive:stack'
+               and not _unbounded_demand(jm0[c['id']][1])][:300]
+        if sus:
+            big = [dict(id=c['id'] + '#big', asm=set_stack(c['asm'], 6000 if jm0[c['id']][3] <= 3 else 3000), ast=c['ast'], args=c['args'],
+                        fuel=c['fuel'], opts=c.get('opts', [])) for c in sus]
+            br = hidlib.run_parallel(big, chunk=64)
+            for c in sus:
+                r = br.get(c['id'] + '#big')
+                r0 = res[c['id']]['vm']
+                # a real demand gets further with more stack; a guard that misfires stops at the same step with the same output
+                if r and 'vm' in r and 'src' in r and 'stack_overflow' in r['vm'].flags and 'stack_overflow' not in r['src'].flags \
+                        and r['src'].outcome == 'terminal' and r['vm'].steps == r0.steps and r['vm'].output == r0.output:
+                    tally['inconclusive:stack'] -= 1
+                    tally['SPURIOUS-OVERFLOW'] = tally.get('SPURIOUS-OVERFLOW', 0) + 1
+                    if 'DIFF' in kinds_bad or 'HALT' in kinds_bad: bad.append((c['id'], 'SPURIOUS-OVERFLOW'))
+            if not tally.get('inconclusive:stack'): tally.pop('inconclusive:stack', None)
     st = ctx.stats.setdefault(label, {})
     for k, v in tally.items(): st[k] = st.get(k, 0) + v
     st['rejected_by_compiler'] = st.get('rejected_by_compiler', 0) + len(rejected)
@@ -159,6 +195,18 @@ def differential(ctx, jobs, srcs, kinds_bad=('DIFF', 'HALT', 'FAULT', 'ASMERROR'
     if len(bad) > max_report:
         st['more_failures_not_reported'] = len(bad) - max_report
     ctx.say('%s: %s%s' % (label, tally, (' rejected=%d' % len(rejected)) if rejected else ''))
+    # the reference ran on the typed tree of the real front end: a typechecker change that rewrites an expression (a wrong fold, a
+    # dropped operand) changes oracle and code alike - so the same programs are also judged against the typed tree of the verified
+    # front-end model wherever the two trees differ (they are identical on the unchanged tree: nothing is re-run)
+    if ife and not bad:
+        distinct = {}
+        for j in jobs:
+            if j[1] not in distinct: distinct[j[1]] = 'd%d' % len(distinct)
+            if len(distinct) >= (ctx.budget(400, 4000) if hasattr(ctx, 'budget') else 400): break
+        try:
+            independent_front_end(ctx, {n: src for src, n in distinct.items()}, [j for j in jobs if j[1] in distinct], label=label + ':model-tree')
+        except Exception as e:
+            ctx.say('%s: model-tree comparison skipped: %s' % (label, str(e)[:120]))
     return tally, bad, res
 
 
